@@ -35,7 +35,7 @@ def plainCheck (P : Program) (d : DagRef) : Bool :=
   decide (d.dest = some P.g.output) && !d.isRec && !d.isOneof &&
   d.nodes.all (fun n => (P.g.preds n).all (fun p => decide (p ∈ d.nodes))) &&
   decide (P.g.output ∈ d.nodes) && decide d.nodes.Nodup && !P.g.nodes.isEmpty &&
-  P.g.edges.all (fun e => e.case.isNone) && P.poolsOk
+  P.g.edges.all (fun e => e.case.isNone && !((P.g.attr e.v).oneofNodes.contains e.u)) && P.poolsOk
 
 def predsOk (P : Program) (val : Node → Option Val) (n : Node) : Bool := (P.g.preds n).all (fun p => (val p).isSome)
 
